@@ -152,8 +152,16 @@ void *lltd_port_memcpy(void *destination, const void *source, size_t num) {
     uint8_t *d = (uint8_t *)destination;
     const uint8_t *s = (const uint8_t *)source;
     if (num <= 64 && g_req.kind != V_K_QLTV) {
-        /* constant-size copies of the TLV writers / QueryResp assembly: CBMC's own memcpy */
+        /* constant-size copies of the TLV writers / QueryResp assembly */
+#ifdef V_MEMCPY_BYTES
+        /* plain byte assignments: keeps constant-offset bytes of the destination apart for symex (needed by the
+         * whole-frame Hello decoder); CBMC's own memcpy goes through array_replace, which it cannot see through */
+        for (size_t i = 0; i < 64; i++) {
+            if (i < num) d[i] = s[i];
+        }
+#else
         memcpy(d, s, num);
+#endif
     } else {
         /* long copy: bounds of both ranges are obligations; of the contents only the ghost byte g_k is copied - the
          * other destination bytes keep their previous value and NO obligation reads them (the payload check of the
